@@ -284,6 +284,37 @@ def p3_group(out):
         out.notes.append(msg)
 
 
+def p3_inline(out):
+    wd = WORK / out.prop
+    wd.mkdir(parents=True, exist_ok=True)
+    dump, st = core.tlc_dump(MC / "MCInline.tla", MC / "MCInlineDump.cfg", out.prop)
+    total = drifted = 0
+    for nu in (True, False):
+        trace = wd / f"replay_inline_{'nounicode' if nu else 'unicode'}.ndjson"
+        rc, err = core.run_sv(["replay", "inline", "--in", dump, "--out", trace], nounicode=nu)
+        if rc != 0:
+            raise ToolError(f"replay of Inline behaviours failed rc={rc}: {err[-500:]}")
+        recs, _, drift = split_replay(trace, wd)
+        res = core.validate("TraceCalls", recs, out.prop)
+        rej = [(c, [x for x in cl if x in ("tags_indices", "segments", "emphasis", "missing_newline", "panic")], ln)
+               for c, cl, ln in res["rejects"]]
+        rej = [r for r in rej if r[1]]
+        if rej:
+            paths, bc = core.write_replays(out.prop, recs, rej, dict(family="replay_inline"))
+            for c in sorted(bc)[:6]:
+                out.violation(f"replayed Inline behaviour case {c}: clause(s) {sorted(bc[c])}", paths.get(c, "n/a"))
+        total += drift["n"]
+        drifted += drift["stream"]
+    out.add("evaluations", total)
+    out.add("traces_validated_against_impl", total)
+    out.add("replayed_model_behaviours", total)
+    out.add("model_drift", drifted)
+    if drifted:
+        msg = f"model drift: Inline: {drifted} of {total} replayed behaviours differ from the model (informational)"
+        print("INFO " + msg)
+        out.notes.append(msg)
+
+
 def builder_family(out, clauses):
     """Histories of builder calls (TextDiffConfig / UnifiedDiff setters in any order), validated
     event by event against spec/abstract/Builder.tla."""
@@ -812,7 +843,8 @@ def c17(out):
                  "diff_chars/words/unicode_words/graphemes/lines/slices; TLC checks tags and bytes against the slice-wise token "
                  "expansion, cumulative offsets, reconstruction of both texts, no empty slice, no panic (TextA!RemapViol/HelperViol); "
                  "non-trivial = >=2 ops and a multi-byte token", sample_keys=("ev", "alg", "kind", "fn", "mode", "old", "new", "result"))
-    out.level = "exploration"
+    p2(out, "MCRemap.tla", ["MCRemap" + ("_t" if out.tier == "thorough" else "")], coverage=False)
+    finish_counts(out)
 
 
 @prop("C20")
@@ -863,7 +895,9 @@ def c16(out):
     core.build_harness(nounicode=True)
     calls_family(out, "c16", {"tags_indices", "segments", "emphasis", "missing_newline", "panic"}, nt,
                  out.cov["rule"], sample_keys=("alg", "mode", "expired", "old", "new"), nounicode=True, name="c16_nounicode")
-    out.level = "exploration"
+    p2(out, "MCInline.tla", ["MCInline"], coverage=False)
+    p3_inline(out)
+    finish_counts(out)
 
 
 @prop("C05")
@@ -957,9 +991,10 @@ def setup():
     jobs += [("mc", "MCCompact.tla", "MCCompact"), ("mc", "MCCompact.tla", "MCCompactRepair"),
              ("mc", "MCGroup.tla", "MCGroup"), ("mc", "MCIter.tla", "MCIter"), ("mc", "MCTokens.tla", "MCTokens"),
              ("mcn", "MCUdiff.tla", "MCUdiff"), ("mcn", "MCUdiff.tla", "MCUdiffRepair"),
-             ("mcn", "MCIdentify.tla", "MCIdentify"), ("mcn", "MCClose.tla", "MCClose")]
+             ("mcn", "MCIdentify.tla", "MCIdentify"), ("mcn", "MCClose.tla", "MCClose"),
+             ("mcn", "MCRemap.tla", "MCRemap"), ("mcn", "MCInline.tla", "MCInline")]
     jobs += [("dump", "MCAlgs.tla", f"MCAlg_{a}{sfx}") for a in ("myers", "lcs", "patience") for sfx in ("_dump0", "_dump")]
-    jobs += [("dump", "MCCompact.tla", "MCCompactDump"), ("dump", "MCGroup.tla", "MCGroupDump")]
+    jobs += [("dump", "MCCompact.tla", "MCCompactDump"), ("dump", "MCGroup.tla", "MCGroupDump"), ("dump", "MCInline.tla", "MCInlineDump")]
 
     def run(j):
         kind, spec, cfg = j
